@@ -176,7 +176,12 @@ pub fn s_rtp_marshal(run: &mut Run, t: &str) -> (String, Fails) {
             }
         }
     }
-    (res_hex(r), f)
+    // the bridge fast path `marshal_into` reuses a caller buffer and must produce the same bytes
+    let mut buf = vec![0xEEu8; 7];
+    let q2 = q.clone();
+    let into = match catch(move || { q2.marshal_into(&mut buf); buf }) { Ok(b) => b, Err(p) => { f.push(("panic:marshal_into".into(), p)); vec![] } };
+    if let Ok(b) = &r { if *b != into { f.push(("codec:rtp:marshal_into-differs".into(), hex(&into))); } }
+    (format!("{} into:{}", res_hex(r), hex(&into)), f)
 }
 
 pub fn s_rtp_parse(run: &mut Run, hx: &str, from_ref: bool) -> (String, Fails) {
@@ -188,6 +193,13 @@ pub fn s_rtp_parse(run: &mut Run, hx: &str, from_ref: bool) -> (String, Fails) {
         Ok(Err(e)) => { if from_ref { f.push(("codec:rtp:parse-of-ref-bytes:rejected".into(), show_err(&e))); } show_err(&e) }
         Ok(Ok(p)) => {
             let m = p.marshal();
+            // `RtpHeader::parse` on a plain slice (the SRTP path) sees the same header and leaves the body unread
+            { let mut sl = &b[..];
+              match RtpHeader::parse(&mut sl) {
+                Ok((h, pad)) => { if h != p.header || pad != (b[0] & 0x20 != 0) || sl.len() != p.payload.len() + p.padding_len as usize {
+                    f.push(("codec:rtp:header-parse-differs".into(), format!("{:?} pad={pad} rest={}", h, sl.len()))); } }
+                Err(e) => f.push(("codec:rtp:header-parse-differs".into(), show_err(&e))),
+              } }
             // canonical wire encoding (padding, if any, written as count bytes) is reproduced byte for byte
             let canonical = b[0] & 0x20 == 0 || (p.padding_len != 0 && b[b.len() - p.padding_len as usize..].iter().all(|x| *x == p.padding_len));
             if canonical { if let Ok(mb) = &m { if *mb != b { f.push(("codec:rtp:bytes-not-reproduced".into(), hex(mb))); } else { run.count("rtp_bytes_reproduced"); } } }
@@ -287,6 +299,7 @@ pub fn s_rtcp_marshal(run: &mut Run, toks: &[&str]) -> (String, Fails) {
     match &r {
         Err(e) => { if all_in { f.push((format!("codec:{}:marshal-rejects-in-range", kind(&ps[0])), show_err(e))); } }
         Ok(b) => {
+            if !b.is_empty() && !is_rtcp(b) { f.push(("codec:rtcp:is_rtcp-misses-own-output".into(), hex(&b[..b.len().min(8)]))); }
             let first_bad = ps.iter().zip(&classes).find(|(_, c)| c.is_some());
             let tag = |what: &str| match first_bad { Some((p, c)) => format!("codec:{}:{}:{}", kind(p), what, c.unwrap()), None => format!("codec:{}:{}", ps.first().map_or("compound", kind), what) };
             match parse_c(b) {
@@ -448,6 +461,34 @@ pub fn s_rtx_unwrap(_run: &mut Run, t: &str, ssrc: &str, pt: &str) -> (String, F
     (match u { None => "none".into(), Some(u) => format!("some {}", show_pkt(&u)) }, f)
 }
 
+pub fn s_is_rtcp(_run: &mut Run, hx: &str) -> (String, Fails) {
+    let b = unhex(hx);
+    ((is_rtcp(&b) as u8).to_string(), vec![])
+}
+
+pub fn s_osn(_run: &mut Run, hx: &str) -> (String, Fails) {
+    let b = unhex(hx);
+    let mut f = vec![];
+    let out = match rustrtc::rtx::decode_osn(&b) {
+        None => { if b.len() >= 2 { f.push(("codec:rtx:osn".into(), "none for ≥ 2 bytes".into())); } "none".to_string() }
+        Some(v) => { let e = rustrtc::rtx::encode_osn(v);
+            if b.len() < 2 || e != [b[0], b[1]] || rustrtc::rtx::decode_osn(&e) != Some(v) { f.push(("codec:rtx:osn".into(), format!("{v}"))); }
+            format!("some:{v}:{}", hex(&e)) }
+    };
+    (out, f)
+}
+
+pub fn s_rtx_alloc(_run: &mut Run, us: &str) -> (String, Fails) {
+    let used: Vec<u8> = list_of(us, ';').iter().map(|x| x.parse().unwrap()).collect();
+    let r = rustrtc::rtx::allocate_rtx_payload_type(&used);
+    let mut f = vec![];
+    match r {
+        Some(pt) => if !(96..=127).contains(&pt) || used.contains(&pt) || (96..pt).any(|q| !used.contains(&q)) { f.push(("codec:rtx:alloc".into(), format!("{pt}"))); }
+        None => if (96..=127u8).any(|q| !used.contains(&q)) { f.push(("codec:rtx:alloc".into(), "none although a dynamic PT is free".into())); }
+    }
+    (match r { None => "none".into(), Some(v) => format!("some:{v}") }, f)
+}
+
 /// run one case given as `<stream> <input…>` (also the replay entry point)
 pub fn exec(run: &mut Run, case: &str) -> (String, String, String, Fails) {
     let toks: Vec<&str> = case.split_whitespace().collect();
@@ -463,6 +504,9 @@ pub fn exec(run: &mut Run, case: &str) -> (String, String, String, Fails) {
         "utf8" => s_utf8(run, a[0]),
         "rtx_wrap" => s_rtx_wrap(run, a[0], a[1], a[2], a[3]),
         "rtx_unwrap" => s_rtx_unwrap(run, a[0], a[1], a[2]),
+        "is_rtcp" => s_is_rtcp(run, a[0]),
+        "osn" => s_osn(run, a[0]),
+        "rtx_alloc" => s_rtx_alloc(run, a[0]),
         "nackbuf" => nackh::s_nackbuf(run, a),
         "gap" => nackh::s_gap(run, a),
         x => panic!("unknown stream {x}"),
@@ -485,12 +529,12 @@ fn emit(run: &mut Run, case: String, nontrivial_hint: bool) {
 pub fn run(args: &Args) {
     let mut run = Run::new("c15", &args.out);
     if let Some(case) = &args.replay {
-        const STREAMS: [&str; 14] = ["rtp_marshal", "rtp_parse", "rtp_parse_ref", "ext_get", "ext_set", "rtcp_marshal", "rtcp_parse",
-            "rtcp_parse_ref", "utf8", "rtx_wrap", "rtx_unwrap", "nackbuf", "gap", "-"];
+        const STREAMS: [&str; 17] = ["rtp_marshal", "rtp_parse", "rtp_parse_ref", "ext_get", "ext_set", "rtcp_marshal", "rtcp_parse",
+            "rtcp_parse_ref", "utf8", "rtx_wrap", "rtx_unwrap", "nackbuf", "gap", "is_rtcp", "osn", "rtx_alloc", "-"];
         let first = case.split_whitespace().next().unwrap_or("-");
         // replay files written for a model/implementation disagreement carry the input without its
         // stream name: try every stream the input is well-formed for
-        let cands: Vec<String> = if STREAMS.contains(&first) { vec![case.clone()] } else { STREAMS[..13].iter().map(|s| format!("{s} {case}")).collect() };
+        let cands: Vec<String> = if STREAMS.contains(&first) { vec![case.clone()] } else { STREAMS[..16].iter().map(|s| format!("{s} {case}")).collect() };
         for c in cands {
             let c2 = c.clone();
             let dir = format!("{}/replay", args.out);
@@ -661,6 +705,17 @@ pub fn run(args: &Args) {
         if rng.chance(1, 3) { let n = rng.below(3) as usize; p.payload = Bytes::from(rng.bytes(n)); }
         emit(&mut run, format!("rtx_wrap {} {} {} {}", show_pkt(&p), gens::g32(&mut rng), rng.below(128), gens::g16(&mut rng)), true);
         emit(&mut run, format!("rtx_unwrap {} {} {}", show_pkt(&p), gens::g32(&mut rng), rng.below(128)), true);
+    }
+
+    // ---- small helpers: is_rtcp (every second byte), OSN codec, RTX payload-type allocation
+    for b1 in 0..=255u8 { emit(&mut run, format!("is_rtcp {}", hex(&[0x80, b1, 0, 0])), true); emit(&mut run, format!("is_rtcp {}", hex(&[0x80, b1])), false); }
+    for n in 0..2usize { emit(&mut run, format!("is_rtcp {}", hex(&vec![200u8; n])), false); }
+    for _ in 0..200 * scale { let n = rng.below(5) as usize; emit(&mut run, format!("osn {}", hex(&rng.bytes(n))), true); }
+    for _ in 0..300 * scale {
+        let mut used: Vec<u8> = match rng.below(4) { 0 => (96..=127).collect(), 1 => (96..(96 + rng.below(33) as u8)).collect(), _ => vec![] };
+        for _ in 0..rng.below(12) { used.push(pk!(rng, [95u8, 96, 97, 100, 126, 127, 128, 0, 255, rng.range(90, 130) as u8])); }
+        if rng.chance(1, 4) && !used.is_empty() { let k = rng.below(used.len() as u64) as usize; used.remove(k); }
+        emit(&mut run, format!("rtx_alloc {}", show_list(used.iter().map(|x| x.to_string()).collect(), ";")), true);
     }
 
     // ---- NACK send buffer and receiver gap detection
